@@ -183,8 +183,8 @@ def expected_scope(req, conn, config=None):
     return {
         "type": "http",
         "method": req["method"].upper(),
-        "raw_path": req["path"],
-        "path": pct_decode(req["path"]),
+        "raw_path": req["path"] if not req.get("abs_empty_path") else b"/",
+        "path": pct_decode(req["path"]) if not req.get("abs_empty_path") else "/",
         "query_string": req["query"] or b"",
         "headers": headers,
         "http_version": req["version"],
@@ -198,6 +198,8 @@ def serialize_h1(req, body_upto=None, omit_end=False):
     target = req["path"] + (b"?" + req["query"] if req["query"] is not None else b"")
     if req.get("absolute"):
         # absolute-form (RFC 7230 5.3.2), which a server has to accept: the same resource, the same path
+        if req.get("abs_empty_path"):
+            target = b"?" + req["query"]
         target = req["absolute"] + req["authority"] + target
     hs = []
     if req.get("host", True):
